@@ -27,21 +27,21 @@ P = {
          "Frames cover the listed fields, not the whole heap; a reveal-signature message rejected after the commitment check (bad MAC or signature) has already replaced c.ake.theirPublicValue and the AKE keys (recorded limitation, pinned by Test_calcAKEKeys); F7 (AKE context wiped before parsing a DH-Commit) is not covered by an obligation."),
  "C07": ("AKE transition table: each of the 16 (state,message) cells is contracted with its next state and reply kind; retransmission cell; collision handling; every cell and the dispatcher processAKE re-establish the representation invariant that ties the stored state to the fields the next cell dereferences (so no cell can be entered with a missing exponent, peer value or long-term key). The collision-winner cell violates the specification (known finding F8).",
          "Termination of the composed two-party system is not decided (liveness of a product automaton is outside contract reasoning)."),
- "C08": ("Zeroing helpers proved to zero in place (wipeBytes, wipeSecretKeyValue, wipeBigInt, dhKeyPair.wipe, akeKeys.wipe, wipeGX, wipeKeys); rotation zeroes the retired private key and keeps state on randomness failure; End/disconnect/akeHasFinished/restart paths are proved to call the wipes exactly once (ghost call counters) and to nil the secret fields.",
+ "C08": ("Zeroing helpers proved to zero in place (wipeBytes, wipeSecretKeyValue, wipeBigInt, dhKeyPair.wipe, akeKeys.wipe, wipeGX, wipeKeys); rotation zeroes the retired private key and keeps state on randomness failure; End/disconnect/akeHasFinished/restart paths and the abandonment of a pending exchange by a new D-H Commit are proved to call the wipes exactly once (ghost call counters, including the wipe of the exchange's key context) and to nil the secret fields.",
          "Zeroing across calls with 'modifies anything' frames is carried by call-presence ghosts, not by byte-level postconditions; resend queue retention (F10) is not covered."),
- "C09": ("MAC key disclosure: keys move from macKeyHistory to oldMACKeys only in the rotation branch that retires their key id (no-op otherwise), conserving the total count; revealMACKeys hands out all of them and empties the list; genDataMsgWithFlag discloses exactly the old list.",
+ "C09": ("MAC key disclosure: keys move from macKeyHistory to oldMACKeys only in the rotation branch that retires their key id (no-op otherwise), conserving the total count; revealMACKeys hands out all of them and empties the list; genDataMsgWithFlag discloses exactly the old list; a rejected data message never shrinks the MAC-key history; the revealed-keys section of a data message is consumed in whole 20-byte keys.",
          "Which entries are removed (multiset exactness of deleteKeysAt) is proved only as counts; re-AKE carry-over (F11) is not covered."),
  "C10": ("Wire format pieces proved against spec terms: v2/v3 message headers, data message field offsets, key ids and non-zero counter on send, HMAC terms for checkSign and sumHMAC, commitment hash term, query message prefix/version letters, DH shared secret term, public key of a rotation, the 40-byte r||s layout of DSA signatures (each value right-aligned in 20 bytes; keys with a larger q are refused, F28 repaired), acceptance of every well-formed unsigned part of a data message.",
          "Key-derivation byte constants, base64 armour and fragment prefix contents are not proved (lengths only)."),
  "C11": ("SMP final comparisons: verifySMP3ProtocolSuccess / verifySMP4ProtocolSuccess return nil iff Rab equals Pa/Pb (as powmod/invmod terms over the real p).",
          "Secret binding, message terms, the algebraic iff-lemma and the event gate are not covered by discharged obligations (SMP message processing is an assumed contract)."),
- "C12": ("SMP robustness: group-membership postconditions of verifySMP1/2 and version-specific isGroupElement (v2 violates: known finding F12); out-of-sequence cells of the state machine abort to EXPECT1 with an error event; cheating path; ensureSMP; continueSMP no longer dereferences a nil state.",
+ "C12": ("SMP robustness: group-membership postconditions of verifySMP1/2 and version-specific isGroupElement (v2 violates: known finding F12); out-of-sequence cells of the state machine abort to EXPECT1 with an error event; a restart from a non-idle state sends the abort TLV first; cheating path; ensureSMP; continueSMP no longer dereferences a nil state.",
          "processSMPTLV is an assumed contract; divMod's invertibility precondition is not established at its call sites."),
  "C13": ("Safety obligations (index, slice bounds, nil dereference, nil interface/func call, division by zero, type assertion, make with negative size, external preconditions) and loop/recursion termination measures for the ~220 functions under contract, including all Extract*/deserialize parsers, the whitespace-tag parser, the recursive s-expression reader (every call consumes input or stops; after the F13 repair) and the libotr key-file import built on it, and the Receive entry point itself (receiveUnit, receiveEncoded with receiveDecoded inlined, processAKE, the data-message path) under the representation invariants of a Conversation, with or without long-term keys (F27 repaired), under arbitrary inputs satisfying the stated preconditions.",
          "Functions without a contract (key-file export, SMP message generation) and the assumed contracts maybeRetransmit/processSMPTLV are not covered; that a processed data message re-establishes convOK and that parsed TLVs stay well-formed across handler calls are stated but not discharged; allocation bounds are not checked; the bufio.Reader under the s-expression reader is a ghost model (rdlen/rdpos/rdlast), not verified library code; F19 is a known finding."),
  "C14": ("Fragmentation: after the repairs, unfragmented pass-through cases, fragment count formula, separator byte, prefix lengths (35/17), receive-side decision table (restart / next with same total / forget / unchanged on error) and its index<=total invariant, decimal fields parsed without truncation, a completed stream is forgotten before the reassembled message is processed (exactly-once hand-over, F20 repaired), accepted fragments inject nothing.",
          "Piece boundaries i*r..min((i+1)*r,l) need nonlinear arithmetic and stay attempted."),
- "C15": ("Instance tags: verdict table of verifyInstanceTags, peer tag learned only from valid messages addressed to us, header fields at offsets 3 and 7, own tag >= 0x100 when generated, ExtractInstanceTags reads the decoded offsets 3 and 7.",
+ "C15": ("Instance tags: verdict table of verifyInstanceTags, peer tag learned only from valid messages addressed to us, header fields at offsets 3 and 7, own tag >= 0x100 when generated, ExtractInstanceTags reads the decoded offsets 3 and 7, a v3 fragment is accepted only with a valid sender tag.",
          "InitializeInstanceTag accepts 1..0xff (known finding F21); fragment branch of ExtractInstanceTags is safety-only."),
  "C16": ("Version commitment: sticky once set (also across fragment handling), v3 preferred over v2 within policy and offer, error and no commitment otherwise, committed version always allowed by policy, checkVersion ties the committed version to the message's version word; query message lists exactly the allowed versions; the whitespace-tag scanner only ever adds versions and consumes 8-byte groups; Send with OTR disabled returns one copy and Receive with OTR disabled returns the bytes it was given (F26 repaired).",
          "Query-message version parsing is covered only for safety; Receive pass-through of ordinary plaintext in the enabled case is covered only as a length/copy fact."),
@@ -49,7 +49,7 @@ P = {
          "Round-trip lemmas are not stated as lemmas; exportParameter (fmt.Sprintf content) and the composed export/import round trip are not covered."),
  "C18": ("Lifecycle: msgState is preserved by every contracted function except akeHasFinished (encrypted), End (plainText) and processDisconnectedTLV (finished); GoneSecure/StillSecure/GoneInsecure are appended to the ghost event log exactly on those transitions; queue append/clear/skip-while-retransmitting; last-message flag.",
          "retransmit/processAKE flush discipline (F25) and 'at most once' over histories are not covered."),
- "C19": ("Boundedness pieces: findCounterFor grows the list only for a new pair, deleteKeysAt/forgetMACKeys shrink by exactly the returned count, injections are flushed, queue cleared; rejected messages do not grow counters.",
+ "C19": ("Boundedness pieces: findCounterFor grows the list only for a new pair, deleteKeysAt/forgetMACKeys shrink by exactly the returned count, injections are flushed (also by Receive itself), queue cleared and not refilled while retransmitting; rejected messages do not grow counters.",
          "The history lists are not bounded by a constant on today's code (F5/F10); only the listed monotonicity facts are proved."),
  "C20": ("No shared mutable state: every store, in-place append, copy and contracted callee effect in the functions under contract targets an object outside the global region (ids established by the init probe), and no reference to a package-level array escapes into the heap or across a contract boundary; global slices have len==cap per the probe.",
          "The schedule quantifier is covered only by this sequential frame argument; functions without a contract are not covered."),
